@@ -1613,6 +1613,8 @@ class Segments:
         # Mode indicator overhead
         if version > 0:  # QR Code
             overhead += len(self.modes) * 4
+            # Hanzi: 4 bits for the subset indicator
+            overhead += self.modes.count(consts.MODE_HANZI) * 4
         elif version > consts.VERSION_M1:  # Micro QR Code (M1 has no mode indicator)
             overhead += len(self.modes) * (version + 3)
         # Char count indicator overhead
